@@ -101,6 +101,12 @@ func (p *MetadataPersister) GetHeaderByLinkname''',"GetHeader no longer filters 
  #equivalent (the root is never a tombstone and sorts first among rows of equal depth): ("M23","C17","pkg/persisters/metadata.go",'"/", ""))) as depth, name from %v where %v != 1`,','"/", ""))) as depth, name from %v where %v != 2`,',"root inferred from tombstones too"),
  ("M24","C03","pkg/compression/compress.go","			l = lz4.Level9\n","			l = lz4.Level9\n			return nil, config.ErrCompressionLevelUnsupported\n","lz4 at the smallest level is refused"),
  ("M25","C10","pkg/tape/manager.go","		r, rr, err := OpenTapeReadOnly(m.drive)\n		if err != nil {\n			m.physicalLock.Unlock()\n","		r, rr, err := OpenTapeReadOnly(m.drive)\n		if err != nil {\n","drive lock leaked when opening the drive for reading fails"),
+ ("M26","C04","pkg/operations/archive.go","			hdr.Size = int64(fileSizeCounter.BytesRead)\n\n			hdr.Name, err = suffix.AddSuffix(hdr.Name, o.pipes.Compression, o.pipes.Encryption)","			hdr.Size = int64(fileSizeCounter.BytesRead)\n			if hdr.Size%512 == 0 {\n				hdr.Size++\n			}\n\n			hdr.Name, err = suffix.AddSuffix(hdr.Name, o.pipes.Compression, o.pipes.Encryption)","archive: encoded sizes that are a multiple of 512 are announced one byte too long"),
+ ("M27","C02","pkg/operations/restore.go","	src := strings.TrimSuffix(from, \"/\")\n","	src := strings.TrimRight(from, \"/.\")\n","restore: trailing dots of the source name are trimmed too"),
+ ("M28","C02","internal/suffix/remove.go","		name = strings.TrimSuffix(name, CompressionFormatZStandardSuffix)","		name = strings.TrimRight(name, CompressionFormatZStandardSuffix)","zstandard suffix removed as a cut-set"),
+ ("M29","C05","internal/tarext/write.go","		if *dirty {\n			if err := tw.Close(); err != nil {","		if *dirty || !isRegular {\n			if err := tw.Flush(); err != nil {","regular-file drives: the tar trailer is replaced by a flush (no end-of-archive blocks)"),
+ ("M30","C05","pkg/tape/write.go","	if overwrite {\n		if isRegular {","	if overwrite || recordSize == 3 {\n		if isRegular {","record size 3: every writer open starts the tape from scratch"),
+ ("M31","C13","pkg/inventory/list.go","	dbHdrs, err := metadata.Metadata.GetHeaderDirectChildren(context.Background(), name, limit)","	dbHdrs, err := metadata.Metadata.GetHeaderDirectChildren(context.Background(), name, limit+limit/4)","count-limited listings of 4 or more ask the store for too many entries"),
 ]
 
 def run(cmd, **kw):
